@@ -50,8 +50,8 @@ RULE = ("case = (temp, clean, filed, extensioned) x op script (7 scripts of reop
         "dotted a.b, ./x, x/../y, '../'*k+e for k=1..5; each with and without an extension) x base ('', plain, nested, dotted, ./b, "
         "b/../c, '../'*k for k=1..5) x prior state at the path (none / left by a directory Filer / left by a file Filer) x head "
         "(usable / blocked so the alt head is used). quick: the full product flags x names x bases (script, prior, head drawn from the "
-        "seed) plus flags x scripts x 6 representative name/base pairs; thorough: the full product of all six dimensions (prior and "
-        "head only vary when not temp). Non-trivial = the Filer created at least one "
+        "seed) plus flags x scripts x 6 representative name/base pairs; thorough: the full product flags x scripts x names x bases, the non-temp half with two of the six "
+        "(prior, head) combinations each, rotating with the seed. Non-trivial = the Filer created at least one "
         "filesystem object and removed at least one; distinct = by all case fields.")
 ASSUMPTIONS = ["POSIX paths; the head, alt and temp head directories exist and are writable (run as the sandbox owner)",
                "the Filer's 'own head directory' is HeadDirPath, or AltHeadDirPath after the documented fallback; in temp mode "
@@ -70,7 +70,8 @@ REQUIRE = {"windows_judged": 5000, "audit_events_judged": 10000, "snapshot_diff_
            "sentinel_checks": 20000, "cases_name_stays_inside_head": 1000}
 EXHAUSTIVE = {"quick": "flags(16) x names(20) x bases(11) = 3520 configurations (op script, prior state, head mode seeded) "
                        "+ flags(16) x op scripts(7) x 6 name/base pairs = 672",
-              "thorough": "flags(16) x op scripts(7) x names(20) x bases(11) x [prior(3) x head mode(2) when not temp] = 86240 configurations"}
+              "thorough": "flags(16) x op scripts(7) x names(20) x bases(11) = 24640 configurations, the non-temp half with 2 of the 6 "
+                          "(prior, head mode) combinations each (rotating with the seed): 36960 cases"}
 
 DEPTH = 12
 # tmpfs when there is one: rmdir/fsync on the disk-backed /tmp of this machine cost 5 ms each
@@ -100,8 +101,9 @@ QUICK_PAIRS = [("x", ""), ("a/b", "p/q"), ("x/../y.dat", "./b"), ("../e", "bs"),
 def cases(tier, seed, shard, nshards):
     """quick:    flags x names x bases, op script / prior / head mode drawn from the seed   (3520 configurations)
                  + flags x op scripts x QUICK_PAIRS, prior / head mode drawn from the seed    (672)
-       thorough: flags x op scripts x names x bases x prior x head mode; prior and head mode only vary when not temp
-                 (temp ignores HeadDirPath and always starts from a fresh directory)"""
+       thorough: flags x op scripts x names x bases (24640 configurations); when not temp each with two of the six
+                 (prior, head mode) combinations, rotating with the configuration index and the seed so that seeds 0..2
+                 cover all six (temp ignores HeadDirPath and always starts from a fresh directory)"""
     flags = list(itertools.product([False, True], repeat=4))
     scripts = list(SCRIPTS)
     n = -1
@@ -128,10 +130,16 @@ def cases(tier, seed, shard, nshards):
                 rng, prior, head = drawn(n, fl[0])
                 yield mk(fl, script, name, base, prior, head)
         return
+    combos = list(itertools.product(PRIORS, HEADS))
     for fl, script, name, base in itertools.product(flags, scripts, NAMES, BASES):
-        for prior, head in (itertools.product(PRIORS, HEADS) if not fl[0] else [("none", "ok")]):
-            n += 1
-            if n % nshards == shard:
+        n += 1
+        if n % nshards != shard:
+            continue
+        if fl[0]:
+            yield mk(fl, script, name, base, "none", "ok")
+        else:                                   # two of the six (prior, head) combinations, rotating with n and the seed
+            for j in (0, 3):
+                prior, head = combos[(n + seed + j) % 6]
                 yield mk(fl, script, name, base, prior, head)
 
 
